@@ -96,6 +96,21 @@ def structure_problems(cssutils, sheet, removed=()):
     return probs[:4]
 
 
+def reachable_rules(sheet):
+    """every rule object reachable from the sheet, at any depth (round 8: whatever an edit makes unreachable - also one the library
+    removes on its own, like a superseded @namespace rule - is a removed object and names no container)"""
+    out = []
+
+    def walk(rules, depth, container):
+        for r in rules:
+            out.append((r, container))
+            if depth < 5 and getattr(r, 'cssRules', None) is not None:
+                walk(r.cssRules, depth + 1, r)
+
+    walk(sheet.cssRules, 0, None)
+    return out
+
+
 def nonempty_types(cssutils, sheet):
     """types of the rules that serialise to something even without their comments (a block holding only a comment is
     written but reparses to an empty rule, which is dropped: a comment matter, not an ordering error)"""
@@ -487,6 +502,7 @@ class Walk:
             if not self.raising:
                 pred = None  # a refusal is silent in log mode: only the resulting structure is judged
         names_before = type_names(self.sheet.cssRules)
+        reach_before = reachable_rules(self.sheet) if self.mode in ('c09', 'all') else []
         outcome, exc = self.apply(op)
         ctx.count('op.' + op[0])
         ctx.count('outcome.' + outcome)
@@ -516,7 +532,11 @@ class Walk:
         # ---- C09: structure
         if self.mode in ('c09', 'all'):
             ctx.count('oracle.structure')
-            probs = structure_problems(self.c, self.sheet, self.removed[-6:])
+            # (a rule that went away *with* its container still sits in that container and names it: only what left a container that stayed is judged)
+            now = {id(r) for r, _ in reachable_rules(self.sheet)}
+            vanished = [r for r, cont in reach_before if id(r) not in now and (cont is None or id(cont) in now)]
+            ctx.count('oracle.vanished-objects', len(vanished))
+            probs = structure_problems(self.c, self.sheet, self.removed[-6:] + vanished[:8])
             if probs:
                 feats = []
                 if op[0] == 'add' and op[1] == 'namespace' and 'CSSComment' in names_before:
